@@ -381,12 +381,19 @@ func c12Run(c *Ctx, cs c12Case) {
 	atomic.StoreInt32(&k.tr.YieldOnWrite, int32(cs.Yield))
 	go peer.run()
 
-	var watchdogFired, newChannelStuck int32
-	watchdog := time.AfterFunc(45*time.Second, func() {
+	var watchdogFired, newChannelStuck, starved int32
+	var c0gid int64 // the channel-0 consumer legitimately waits for unsolicited traffic
+	watchdog := time.AfterFunc(30*time.Second, func() {
 		atomic.StoreInt32(&watchdogFired, 1)
+		everythingDelivered := peer.idle() && k.tr.IsIdle()
 		for _, g := range rt.Goroutines() {
 			if g.Has("tds.(*Conn).NewChannel") && g.Parked() {
 				atomic.AddInt32(&newChannelStuck, 1)
+			}
+			// a client waiting for packages although the peer has released
+			// everything and the reader has processed it can never proceed
+			if everythingDelivered && g.Has("main.c12Recv") && g.Has("tds.(*Channel).NextPackage") && g.State == "select" && g.ID != atomic.LoadInt64(&c0gid) {
+				atomic.AddInt32(&starved, 1)
 			}
 		}
 		fmt.Fprintf(os.Stderr, "C12 watchdog: dumping goroutines\n")
@@ -404,6 +411,7 @@ func c12Run(c *Ctx, cs c12Case) {
 	c0done := make(chan struct{})
 	go func() {
 		defer close(c0done)
+		atomic.StoreInt64(&c0gid, xport.GID())
 		for c0ctx.Err() == nil {
 			c12Recv(c0ctx, k.ch, c0)
 		}
@@ -514,11 +522,15 @@ func c12Run(c *Ctx, cs c12Case) {
 		for _, cl := range clients {
 			inv += cl.invalid
 		}
-		fail("newchannel-blocked-although-acknowledged", fmt.Sprintf("%d NewChannel call(s) were still parked 45 s after the peer had acknowledged all %d SETUP packets (ids %v); %d 'invalid channel' errors were seen although only %d packets for unknown channels had been injected", atomic.LoadInt32(&newChannelStuck), len(peer.setups), peer.setups, inv, peer.injected))
+		fail("newchannel-blocked-although-acknowledged", fmt.Sprintf("%d NewChannel call(s) were still parked 30 s after the peer had acknowledged all %d SETUP packets (ids %v); %d 'invalid channel' errors were seen although only %d packets for unknown channels had been injected", atomic.LoadInt32(&newChannelStuck), len(peer.setups), peer.setups, inv, peer.injected))
+		return
+	}
+	if atomic.LoadInt32(&watchdogFired) != 0 && atomic.LoadInt32(&starved) > 0 {
+		fail("routing/consumer-starved-although-everything-was-delivered", fmt.Sprintf("after 30 s %d client goroutine(s) were still waiting in NextPackage although the peer had released every response packet and the reader had processed all of them: packages were lost or delivered to another channel", atomic.LoadInt32(&starved)))
 		return
 	}
 	if atomic.LoadInt32(&watchdogFired) != 0 {
-		r.Inconclusive("C12 repetition did not finish within 45 s (goroutine dump in the worker's stderr): %+v", cs)
+		r.Inconclusive("C12 repetition did not finish within 30 s (goroutine dump in the worker's stderr): %+v", cs)
 		return
 	}
 	if !idle {
